@@ -118,6 +118,10 @@ fn main() {
         return;
     }
     let seed: u64 = args.get(2).and_then(|s| s.parse().ok()).unwrap_or(0);
+    if shape == "aisle" || shape == "aislelight" {
+        aisle_shape(seed, shape == "aislelight");
+        return;
+    }
     let full = shape == "full";
     let fit = shape == "fit";
     let conv = shape == "conv" || fit;
@@ -230,4 +234,100 @@ fn main() {
         std::process::exit(1);
     }
     println!("COOKMIRI-OK shape={shape} seed={seed} threads={nthreads} ops={}", all.len());
+}
+
+
+// ---------------------------------------------------------------------------
+// C11: `aisle::parse` computes error spans by pointer arithmetic in an `unsafe` block
+// (`offset_from` between a sub-slice and the input). Under Miri every such computation is checked
+// for provenance and bounds, which the bounds check of a span *value* cannot do: an offset taken
+// between two different allocations, or through a pointer one past a reallocated buffer, is
+// undefined behaviour even when the number happens to look right.
+
+const AISLE_FILES: &[&str] = &[
+    "[produce]\npotatoes\n\n[dairy]\nmilk\nbutter\n",
+    "[c]\na|b|c\nd| e |\n// comment\n[d] // trailing\nlast\n",
+    "[dup]\na\n[dup]\n",
+    "[c]\na|b\nc|a\n",
+    "a\n[c]\n",
+    "[a|b]\nx\n",
+    "[c]\r\n\u{e9}|\u{20ac}|\u{1f345}\r\n|\r\n",
+    "[]\n|",
+    "[c]\n\u{a0}[a]\u{a0}\n\t x \t| y\n",
+    "|",
+    "",
+    "[c]\nname // c\nname\n",
+];
+
+fn aisle_one(text: &str) -> u32 {
+    use cooklang::aisle;
+    use cooklang::error::RichError;
+    match aisle::parse(text) {
+        Ok(conf) => {
+            let info = conf.ingredients_info();
+            for c in &conf.categories {
+                for i in &c.ingredients {
+                    for n in &i.names {
+                        let got = info.get(n).unwrap_or_else(|| panic!("COOKMIRI-MISMATCH aisle lookup misses {n:?} in {text:?}"));
+                        assert!(got.category == c.name && got.common_name == i.names[0], "COOKMIRI-MISMATCH aisle lookup of {n:?} in {text:?}");
+                    }
+                }
+            }
+            let mut out = Vec::new();
+            aisle::write(&conf, &mut out).expect("write to a Vec");
+            let written = String::from_utf8(out).expect("utf-8");
+            let again = aisle::parse(&written).unwrap_or_else(|e| panic!("COOKMIRI-MISMATCH written output of {text:?} does not parse: {e:?}"));
+            assert!(again == conf, "COOKMIRI-MISMATCH aisle round trip of {text:?}");
+            let _ = conf.clone();
+            1
+        }
+        Err(e) => {
+            for (span, _) in e.labels().iter() {
+                assert!(span.start() <= span.end() && span.end() <= text.len() && text.is_char_boundary(span.start()) && text.is_char_boundary(span.end()),
+                    "COOKMIRI-MISMATCH aisle error span {span:?} outside {text:?}");
+            }
+            let mut out = Vec::new();
+            let _ = cooklang::error::write_rich_error(&e, "aisle.conf", text, false, &mut out);
+            0
+        }
+    }
+}
+
+fn aisle_shape(seed: u64, light: bool) {
+    let mut n = 0u32;
+    let mut ok = 0u32;
+    for f in AISLE_FILES {
+        ok += aisle_one(f);
+        n += 1;
+        // the same text as a sub-slice of a larger buffer (the input pointer is not the start of its allocation)
+        let holder = format!("##{f}##");
+        ok += aisle_one(&holder[2..holder.len() - 2]);
+        n += 1;
+    }
+    // every string of up to 3 symbols ...
+    const ALPHA: &[&str] = &["[", "]", "|", "/", "\n", " ", "a"];
+    for len in 0..=(if light { 2u32 } else { 3 }) {
+        for code in 0..(ALPHA.len() as u64).pow(len) {
+            let mut s = String::new();
+            let mut c = code;
+            for _ in 0..len {
+                s.push_str(ALPHA[(c % ALPHA.len() as u64) as usize]);
+                c /= ALPHA.len() as u64;
+            }
+            ok += aisle_one(&s);
+            n += 1;
+        }
+    }
+    // ... and seeded longer ones over a wider alphabet
+    const WIDE: &[&str] = &["[", "]", "|", "//", "\n", " ", "a", "b", "\u{a0}", "\r\n", "A", "\u{e9}", "\t", "[c]\n", "x|y\n"];
+    for k in 0..(if light { 30u64 } else { 120 }) {
+        let mut s = String::new();
+        let len = 3 + mix(seed, 7000 + k) % 10;
+        for j in 0..len {
+            s.push_str(WIDE[(mix(seed, 8000 + k * 16 + j) % WIDE.len() as u64) as usize]);
+        }
+        ok += aisle_one(&s);
+        n += 1;
+    }
+    println!("COOKMIRI-OK shape={} seed={seed} files={n} accepted={ok}", if light { "aislelight" } else { "aisle" });
 }
